@@ -99,8 +99,9 @@ def shape_statement(shape, with_size):
             "(e,s),x": lambda: [LP, e, ix("j", S_), RP, ix("i", X)], "#e,x": lambda: [SH, e, ix("i", X)], "#e,y": lambda: [SH, e, ix("i", Y)],
             "(e)+f": lambda: [LP, e, RP, plus, f], "(e)+f,x": lambda: [LP, e, RP, plus, f, ix("i", X)], "e+f": lambda: [e, plus, f], "(e+f),y": lambda: [LP, e, plus, f, RP, ix("i", Y)],
             "[e+f]": lambda: [LB, e, plus, f, RB], "#-e": lambda: [SH, minus, e],
+            "<nothing>": lambda: [], "<nothing> }": lambda: [("RBRACE", "}")], "<nothing> nop": lambda: [("OPCODE_NAKED", "nop")],
         }[shape]()
-        head = [("OPCODE_NAKED" if shape == "implied" else "OPCODE", "NoP" if shape == "implied" else "LdA")]
+        head = [("OPCODE_NAKED" if shape == "implied" else "OPCODE", "NoP" if shape == "implied" else ("InX" if shape.startswith("<nothing>") and with_size else "LdA"))]
         if with_size:
             head.append(("OPCODE_SIZE", size))
         toks = _toks(B, head + pat + [("EOF", "")])
@@ -109,7 +110,7 @@ def shape_statement(shape, with_size):
         res = shapes.resolver(B)
         shapes.root_symbols(B, res, {"e": ve, "f": vf})
         p = B.inst("a816.parse.parser.Parser", tokens=B.list(toks), pos=0, initial_state=None)
-        return {"p": p, "resolver": res, "shape": shape, "size_text": size, "mnemonic": "nop" if shape == "implied" else "lda", "operand_value": value}
+        return {"p": p, "resolver": res, "shape": shape, "size_text": size, "mnemonic": "nop" if shape == "implied" else ("inx" if shape.startswith("<nothing>") and with_size else "lda"), "operand_value": value}
     return sh
 
 
